@@ -16,7 +16,6 @@ def lookStr : Look → String
   | .missing => "missing"
   | .wrongKind => "wrongkind"
   | .malformed => "malformed"
-  | .fuel => "FUEL"
 
 def gresStr : GRes → String
   | .found s e => s!"F:{s}:{e}"
@@ -97,11 +96,15 @@ def c12 (args : List String) : String :=
       let inv := Spec.utf8FirstInvalid buf 0
       let (ma, ea) := drainArr buf inv 0 true [] 100000
       let (mo, eo) := drainObj buf inv 0 true [] 100000
-      let (sa, oka) := arrayItems (buf.size + 2) buf (skipWs buf 0)
-      let (so, oko) := objectItems (buf.size + 2) buf (skipWs buf 0)
+      let (sa, oka) := arrayItems buf (skipWs buf 0)
+      let (so, oko) := objectItems buf (skipWs buf 0)
+      -- the library (proved) drains, without the UTF-8 latch: must equal the specification
+      let (la, lao) := Impl.drainArr buf 0 true
+      let (lo, loo) := Impl.drainObj buf 0 true
+      let libOk : Bool := (la, lao) == (sa, oka) && (lo, loo) == (so, oko)
       let sas := sa.map fun (s, e) => s!"{s}:{e}"
       let sos := so.map fun (k, s, e) => s!"{hex k}:{s}:{e}"
-      s!"m.arr={joinItems ma}|{ea} m.obj={joinItems mo}|{eo} spec.arr={joinItems sas}|{if oka then "END" else "ERR"} spec.obj={joinItems sos}|{if oko then "END" else "ERR"} utf8={ar u} inv={inv}"
+      s!"m.arr={joinItems ma}|{ea} m.obj={joinItems mo}|{eo} spec.arr={joinItems sas}|{if oka then "END" else "ERR"} spec.obj={joinItems sos}|{if oko then "END" else "ERR"} utf8={ar u} inv={inv} lib={ar libOk}"
     | none => "bad-hex"
   | [] => "bad-args"
 
